@@ -423,14 +423,18 @@ def run_lfopt(case):
         lf.set_param_rule(**kw)
     before = float(lf.lnL)
     opt = dict(case["opt"])
-    exc = None
+    opt.setdefault("show_progress", False)
+    exc, best = None, None
     try:
-        exc = _optimise(lf, opt)
+        calc = lf.optimise(return_calculator=True, **opt)
+        best = float(calc.testfunction())
+    except ArithmeticError:
+        exc = "arith"
     except Exception as e:  # noqa: BLE001
         exc = type(e).__name__ + ":" + str(e)[:100]
     after = float(lf.lnL)
     s, who = bounds_slack(lf)
-    return dict(before=before, after=after, exc=exc, slack=s, slack_who=who)
+    return dict(before=before, after=after, calc_best=best, exc=exc, slack=s, slack_who=who)
 
 
 def run_lfbounds(case):
@@ -461,11 +465,37 @@ def run_lfbounds(case):
             for e in es:
                 held[par][e] = [float(r["lower"]), float(r["upper"])]
     before = float(lf.lnL)
-    exc = _optimise(lf, case["opt"])
+    opt = dict(case["opt"])
+    opt.setdefault("show_progress", False)
+    exc, best = None, None
+    try:
+        calc = lf.optimise(return_calculator=True, **opt)
+        # the calculator was left at the optimiser's best point ("ensure best last"): its current output value
+        best = float(calc.testfunction())
+    except ArithmeticError:
+        exc = "arith"
     values = {}
     for par in case["pars"]:
         values[par] = {e: float(lf.get_param_value(par, edge=e)) for e in edges}
-    return dict(defaults=defaults, values=values, held=held, before=before, after=float(lf.lnL), exc=exc, edges=edges)
+    return dict(defaults=defaults, values=values, held=held, before=before, after=float(lf.lnL), calc_best=best, exc=exc, edges=edges)
+
+
+def run_ufc(case):
+    """the real _InputDefn.update_from_calculator on a stand-in definition with one setting (unit 1e-12)"""
+    import types
+
+    from cogent3.recalculation import definition as D
+
+    U = 1e-12
+    f = lambda z: None if z is None else z * U  # noqa: E731
+    setting = types.SimpleNamespace(is_constant=case["const"], lower=f(case["lower"]), upper=f(case["upper"]), value=None)
+    me = types.SimpleNamespace(uniq=[setting], name="p")
+    calc = types.SimpleNamespace(get_current_cell_values_for_defn=lambda d: [f(case["output"])])
+    try:
+        D._InputDefn.update_from_calculator(me, calc)
+    except Exception as e:  # noqa: BLE001
+        return dict(exc=type(e).__name__)
+    return dict(value=float(setting.value))
 
 
 def run_hyp(case):
@@ -574,6 +604,8 @@ def run_case(case):
         return run_lfopt(case)
     if k == "lfbounds":
         return run_lfbounds(case)
+    if k == "ufc":
+        return run_ufc(case)
     if k == "hyp":
         return run_hyp(case)
     raise ValueError(k)
